@@ -104,6 +104,7 @@ R_Small    == {<<-1, -1>>, <<0, 3>>, <<1, -1>>}
 R_Ovl      == {<<-1, -1>>, <<0, 9>>, <<3, 6>>}
 R_Ovl2     == {<<-1, -1>>, <<3, 6>>}
 R_Post     == {<<-1, -1>>, <<0, 3>>, <<2, 2>>}
+R_Big      == {<<-1, -1>>, <<4, 8195>>}
 R_Auto     == {<<-1, -1>>}
 R_Explicit == {<<0, 3>>}
 CS_One     == {<<81, 1>>}
